@@ -38,7 +38,8 @@ REQUIRED_MONITORS = ["value-continuous", "normal-component-continuous", "tangent
 REQUIRED_REACH = ["facet-opposite-direction", "facet-different-slot", "hdiv-orient-both-signs",
                   "hcurl-orient-both-signs", "curved-mesh", "docs-mesh", "quad-shifted", "hex-rotated",
                   "derived-mesh", "derived-mesh:adaptive", "first-order-simplices-in-given-local-order",
-                  "derived-directed:adaptive", "derived-directed:used-elsewhere", "derived-directed:uniform"]
+                  "derived-directed:adaptive", "derived-directed:used-elsewhere", "derived-directed:uniform",
+                  "prism-faces-of-both-kinds"]
 
 
 def mesh_geometry(mesh, kind, order):
@@ -289,11 +290,14 @@ def mech_for(rec_name, mesh, monitor, diffslot, opp, unsorted_tri2, failing=None
     return f"{monitor}:{base}"
 
 
-def check_mesh_elem(ctx, mc, rec, tag_extra=None):
+def check_mesh_elem(ctx, mc, rec, tag_extra=None, only_nvf=None):
     import skfem
     rng = ctx.rng(rec.name, "coef")
     mesh, kind = mc.mesh, mc.kind
     itf = interior_facets(mesh)
+    if only_nvf is not None:
+        # prisms mix triangular and quadrilateral faces: one group of equal vertex count per call
+        itf = np.array([f for f in itf if len(dict.fromkeys(int(v) for v in mesh.facets[:, f])) == only_nvf], dtype=itf.dtype)
     if itf.size == 0:
         raise Skip("no-interior-facets")
     if itf.size > 60:
@@ -579,6 +583,20 @@ def records_with_claim(kind):
 
 def gen_case(kind):
     def fn(ctx, k):
+        if kind == "wedge":
+            recs = records_with_claim(kind)
+            rec = recs[k % len(recs)]
+            mc = G.wedge_mesh(ctx.rng())
+            done = 0
+            for nvf_ in (3, 4):
+                try:
+                    check_mesh_elem(ctx, mc, rec, only_nvf=nvf_)
+                    done += 1
+                except Skip:
+                    pass
+            if done:
+                ctx.reached("prism-faces-of-both-kinds" if done == 2 else "prism-faces-of-one-kind")
+            return
         recs = records_with_claim(kind)
         rec = recs[k % len(recs)]
         rng = ctx.rng()
@@ -718,7 +736,7 @@ def docs_meshes(ctx, k):
 
 
 FAMILIES = [Family("line", line_case, 12, 240)]
-for kd, mult_q, mult_t in (("tri", 2, 40), ("quad", 2, 40), ("tet", 2, 30), ("hex", 2, 24)):
+for kd, mult_q, mult_t in (("tri", 2, 40), ("quad", 2, 40), ("tet", 2, 30), ("hex", 2, 24), ("wedge", 4, 40)):
     FAMILIES.append(Family("gen-" + kd, gen_case(kd),
                            (lambda c, kd=kd, a=mult_q, b=mult_t: len(records_with_claim(kd)) * (a if c.tier == "quick" else b)),
                            (lambda c, kd=kd, a=mult_q, b=mult_t: len(records_with_claim(kd)) * (a if c.tier == "quick" else b)),
